@@ -414,7 +414,7 @@ def handle (j : Json) : R Json := do
     let d := analyzeStr w stdHelp (natD j "fuel" 64) (← str j "cmd") (← str j "cwd") (boolD j "remote" false)
     return decisionJson d
   | "scan" =>
-    return Json.arr ((scanItems (← str j "s")).map fun it => match it with
+    return Json.arr ((scanItems (boolD j "procsub" false) (← str j "s")).map fun it => match it with
       | .sub inner rel => Json.mkObj [("sub", Json.str inner), ("reliable", Json.bool rel)]
       | .unanalyzable t => Json.mkObj [("unanalyzable", Json.str t)]).toArray
   | "arithtexts" => return Json.arr ((arithTexts (← str j "s")).map Json.str).toArray
